@@ -877,8 +877,8 @@ MANIFEST = {
 
 def run(ctx):
     ctx.enumerate("history", _fixed_cases(), name="fixed-scenarios", exhaustive=False)
-    ctx.search("history", cases(), quick=1000, thorough=3000)
-    ctx.search("inflight", inflight_cases(), quick=400, thorough=3000)
+    ctx.search("history", cases(), quick=1000, thorough=6000)
+    ctx.search("inflight", inflight_cases(), quick=400, thorough=6000)
 
 
 MUTANTS = [
